@@ -173,6 +173,19 @@ class _RunnerIterator(iter_utils.MultiplexIterator[_ValueT]):
         state=state.agg_state,
     )
 
+  def from_upstream(
+      self, upstream: Iterable[_ValueT], state: _IteratorState
+  ) -> _RunnerIterator:
+    """Recovers with an already recovered upstream iterator as the input."""
+    return self.__class__(
+        self._runner,
+        data_sources=[upstream],
+        ignore_error=self._ignore_error,
+        with_result=self._with_result,
+        with_agg_state=self._with_agg,
+        state=state.agg_state,
+    )
+
   @property
   def state(self) -> _IteratorState:
     return _IteratorState(
@@ -542,7 +555,14 @@ class _ChainedRunnerIterator(Iterable[_ValueT]):
     if isinstance(state, _IteratorState):
       assert len(self._iterators) == 1, f'{len(self._iterators)=}'
       state = {it.name: state for it in self._iterators}
-    iterators = [it.from_state(state[it.name]) for it in self._iterators]
+    iterators = []
+    for it in self._iterators:
+      if iterators:
+        # A downstream stage has to consume the recovered upstream iterator,
+        # not a private copy of it, so that the upstream aggregates advance.
+        iterators.append(it.from_upstream(iterators[-1], state[it.name]))
+      else:
+        iterators.append(it.from_state(state[it.name]))
     return _ChainedRunnerIterator(
         iterators,
         with_result=self._with_result,
